@@ -317,7 +317,8 @@ pub fn enc_len(sh: &Sh) -> usize {
         if sh.kind == K_OBJ {
             t += sh.klens[i];
         }
-        t += enc_len(&sh.kids[i]);
+        // leaves inline, so that flat documents need no recursion (harnesses run with a recursion bound of 1)
+        t += if sh.kids[i].kind <= K_STR { sh.kids[i].w } else { enc_len(&sh.kids[i]) };
         i += 1;
     }
     t
@@ -530,7 +531,7 @@ pub fn lower(c: u8) -> u8 {
 // ---------------------------------------------------------------------------------------------
 // Expected outputs of editing functions, composed from pieces of the input documents following the
 // README layout. A Blob is "an element as it sits inside a container": entry type byte + bytes.
-pub const XCAP: usize = 96;
+pub const XCAP: usize = 64;
 #[derive(Clone, Copy)]
 pub struct Blob {
     pub tag: u8,
